@@ -444,7 +444,8 @@ pub const FILTER_KS: [usize; 9] = [4, 5, 6, 8, 16, 20, 31, 32, 64];
 fn filter_case(sink: &Sink, r: &mut Rng, pass_counts: &[usize], saturate: bool) {
     let k = if r.chance(2, 3) { *r.pick(&[4usize, 5, 6, 8]) } else { *r.pick(&FILTER_KS) };
     let stranded = r.chance(1, 2);
-    let min = r.range(0, 4);
+    // thresholds around the 16-bit count limit and far beyond it are legal too ("for all n")
+    let min = if r.chance(1, 10) || (saturate && r.chance(1, 2)) { *r.pick(&[65535usize, 65536, 65537, 65538, 131073, 1 << 20, usize::MAX]) } else { r.range(0, 4) };
     let report_all = r.chance(1, 2);
     let mode = if saturate { 0 } else { r.below(3) };
     let alphas: [&[u8]; 4] = [&[0, 3], &[1, 2], &[0, 1, 2, 3], &[0, 1, 2, 3]];
@@ -503,7 +504,7 @@ fn filter_case(sink: &Sink, r: &mut Rng, pass_counts: &[usize], saturate: bool) 
         };
         let reads_json: Vec<Value> = reads.iter().map(|x| {
             json!({"s": x.s, "l": x.l, "r": x.r, "label": x.label})}).collect();
-        let desc = json!({"op":"filter","K":k,"st":stranded,"min":min,"report_all":report_all,"mode":mode,"vt":vt,
+        let desc = json!({"op":"filter","K":k,"st":stranded,"min":std::cmp::min(min, 1_000_000_000),"report_all":report_all,"mode":mode,"vt":vt,
             "want_passes":want,"slices":slices,"reads":reads_json,"saturate":saturate});
         let case = sink.begin_case(&desc);
         let res = guard(|| with_kmer_filter(k, &reads, vt, stranded, min, report_all, mode, slices, &probes));
